@@ -389,3 +389,18 @@ MUTANTS += [
   "old": "                contraction_code.append(prefactor)\n                continue",
   "new": "                continue"},
 ]
+
+HARMLESS += [
+ {"id": "c17-h-gc-replace-unconditional", "prop": "C17", "file": _GCF,
+  "old": "    if \",\" in target_indices:\n        target_indices = target_indices.replace(\",\", \"\")",
+  "new": "    target_indices = target_indices.replace(\",\", \"\")"},
+ {"id": "c04-h-precursor-factor-order", "prop": "C04", "file": _IS,
+  "old": "                    projection += (prefactor * state * i1).expand()",
+  "new": "                    projection += (state * i1 * prefactor).expand()"},
+ {"id": "c02-h-norm-factor-no-early-exit", "prop": "C02", "file": _GS,
+  "old": "                    if i1 is S.Zero:\n                        break\n                norm_factor += i1.expand()",
+  "new": "                norm_factor += i1.expand()"},
+ {"id": "c09-h-ed-membership-order", "prop": "C09", "file": "adcgen/func.py",
+  "old": "            elif preferred not in target_idx \\\n                    and d.indices_contain_equal_information:",
+  "new": "            elif d.indices_contain_equal_information \\\n                    and preferred not in target_idx:"},
+]
